@@ -351,6 +351,10 @@ class WhileCtl(LoopCtl):
     def cond(self, st):
         return self.engine.truth(st, self.engine.eval(st, self.stmt.test))
 
+    def begin(self, st):
+        # inside the body the loop test holds: Optional locals tested `is not None` are their value
+        self.engine.narrow_names(st, self.stmt.test, True)
+
 
 def exec_while(engine, st, stmt):
     return run_loop(engine, st, stmt, WhileCtl(engine, stmt))
@@ -376,6 +380,9 @@ class Unroll:
 
 def describe_iter(engine, st, node):
     """Classify the iterable expression of a for loop / comprehension."""
+    if isinstance(node, (ast.Tuple, ast.List)) and node.elts and all(isinstance(e, ast.Constant) and isinstance(e.value, str) for e in node.elts):
+        # for k in ("a", "b", ...): a fixed tuple of string constants
+        return Unroll([PyConst(e.value) for e in node.elts]), None
     if isinstance(node, ast.Call) and isinstance(node.func, ast.Name):
         fn = node.func.id
         if fn == "range":
